@@ -68,3 +68,24 @@ def _intern(s):  # (6) pathlib interns path parts; sys.intern rejects symbolic s
 
 
 cc._PATCH_REGISTRATIONS[sys.intern] = _intern
+
+
+import re as _re
+
+
+def _findall(self, string, pos=0, endpos=None):  # (7) CrossHair realises the subject of Pattern.findall; build it from the
+    out = []                                    #     (symbolic) finditer instead: documented equivalence of the two
+    it = self.finditer(string, pos) if endpos is None else self.finditer(string, pos, endpos)
+    empty = string[:0]
+    for m in it:
+        if self.groups == 0:
+            out.append(m.group(0))
+        elif self.groups == 1:
+            g = m.group(1)
+            out.append(empty if g is None else g)
+        else:
+            out.append(tuple(empty if g is None else g for g in m.groups()))
+    return out
+
+
+cc._PATCH_REGISTRATIONS[_re.Pattern.findall] = _findall
